@@ -16,6 +16,18 @@
 
 namespace Teakra {
 
+#ifdef TEAKRA_VERIF
+// Verification hook: scheduling point before every access to the cross-thread interrupt latches.
+inline void (*verif_sched_hook)(int tag) = nullptr;
+#define TEAKRA_VERIF_SCHED(tag)                                                                    \
+    do {                                                                                           \
+        if (::Teakra::verif_sched_hook)                                                            \
+            ::Teakra::verif_sched_hook(tag);                                                       \
+    } while (0)
+#else
+#define TEAKRA_VERIF_SCHED(tag) ((void)0)
+#endif
+
 class UnimplementedException : public std::runtime_error {
 public:
     UnimplementedException() : std::runtime_error("unimplemented") {}
@@ -74,11 +86,13 @@ public:
             }
 
             for (std::size_t i = 0; i < 3; ++i) {
+                TEAKRA_VERIF_SCHED(1);
                 if (interrupt_pending[i].exchange(false)) {
                     regs.ip[i] = 1;
                 }
             }
 
+            TEAKRA_VERIF_SCHED(2);
             if (vinterrupt_pending.exchange(false)) {
                 regs.ipv = 1;
             }
@@ -146,11 +160,15 @@ public:
     }
 
     void SignalInterrupt(u32 i) {
+        TEAKRA_VERIF_SCHED(3);
         interrupt_pending[i] = true;
     }
     void SignalVectoredInterrupt(u32 address, bool context_switch) {
+        TEAKRA_VERIF_SCHED(4);
         vinterrupt_address = address;
+        TEAKRA_VERIF_SCHED(5);
         vinterrupt_pending = true;
+        TEAKRA_VERIF_SCHED(6);
         vinterrupt_context_switch = context_switch;
     }
 
